@@ -1,4 +1,4 @@
-import KafVerif.Lemmas.Kafka
+import KafVerif.Lemmas.KafkaAlloc
 /-!
 C34 — Segment decoders never crash on any bytes.
 
@@ -20,16 +20,6 @@ that no allocation request exceeds 112 bytes per input byte):
 -/
 namespace KafVerif.Kafka
 
-
-/-- readers that consume at least one byte -/
-def Cfg.Shrinks (c : Cfg) : Prop :=
-  (∀ r v rest, c.rdInt r = some (v, rest) → rest.length < r.length) ∧
-  (∀ r v rest, c.rdTs r = some (v, rest) → rest.length < r.length)
-
-theorem cfgIceberg_shrinks : cfgIceberg.Shrinks :=
-  ⟨fun _ _ _ h => readVarint64_rest_lt h, fun _ _ _ h => readVarint64_rest_lt h⟩
-theorem cfgSql_shrinks : cfgSql.Shrinks :=
-  ⟨fun _ _ _ h => readVarint32Sql_rest_lt h, fun _ _ _ h => readVarint64_rest_lt h⟩
 
 variable {lim : Nat} {c : Cfg}
 
@@ -529,6 +519,56 @@ theorem _root_.KafVerif.C34.pitr_plan_total (crc : Bytes → Nat) (seg idx : Byt
     buildRestorePlan crc (goMakeLim lim) seg idx restoreMs createdMs ≠ .panic :=
   buildRestorePlan_ne_panic crc seg idx restoreMs createdMs hs hi
 
+/-! ### total allocation of one call
+
+`decodeSegmentA`, `parseIndex…A`, `collectRecoverableA`, `buildRestorePlanA` (`Model/KafkaAlloc.lean`) are
+the model functions with a byte counter: every `make` adds its size.  Each theorem says (i) the
+instrumented function returns exactly what the model function returns, for every allocator — so the
+counter is the sum over the `make` calls the model really executes on that input — and (ii) the sum is
+at most `a·|input| + b` with the constants `alloc…A/B` that the allocation monitor of the check reads
+from the driver. -/
+
+/-- **C34 (total allocation, decoders).** For every byte string and every allocator, the `make`s of one
+`decodeSegment` call (record slice, record buffers, keys, values, header slices, header keys/values)
+request at most 154 bytes per input byte in total — iceberg and sql decoder. -/
+theorem _root_.KafVerif.C34.decodeSegment_total_alloc (mk : Alloc) (bs : Bytes) :
+    (decodeSegmentA mk cfgIceberg bs).res = decodeSegment mk cfgIceberg bs ∧
+    (decodeSegmentA mk cfgSql bs).res = decodeSegment mk cfgSql bs ∧
+    (decodeSegmentA mk cfgIceberg bs).cost ≤ allocDecodeA * bs.length + allocDecodeB ∧
+    (decodeSegmentA mk cfgSql bs).cost ≤ allocDecodeA * bs.length + allocDecodeB :=
+  ⟨decodeSegmentA_res mk cfgIceberg bs, decodeSegmentA_res mk cfgSql bs,
+   decodeSegmentA_spends rfl rfl cfgIceberg_shrinks bs, decodeSegmentA_spends rfl rfl cfgSql_shrinks bs⟩
+
+/-- **C34 (total allocation, index parsers).** `ParseIndex` of the broker: at most 1 byte per input byte;
+`parseIndex` of both processors: at most 2. -/
+theorem _root_.KafVerif.C34.parseIndex_total_alloc (mk : Alloc) (bs : Bytes) :
+    ((parseIndexRootA mk bs).res = parseIndexRoot mk bs ∧
+     (parseIndexIcebergA mk true bs).res = parseIndexIceberg mk true bs ∧
+     (parseIndexSqlA mk true bs).res = parseIndexSql mk true bs) ∧
+    (parseIndexRootA mk bs).cost ≤ allocIndexRootA * bs.length + allocIndexB ∧
+    (parseIndexIcebergA mk true bs).cost ≤ allocIndexProcA * bs.length + allocIndexB ∧
+    (parseIndexSqlA mk true bs).cost ≤ allocIndexProcA * bs.length + allocIndexB :=
+  ⟨⟨parseIndexRootA_res mk bs, parseIndexIcebergA_res mk true bs, parseIndexSqlA_res mk true bs⟩,
+   parseIndexRootA_spends bs, parseIndexIcebergA_spends bs, parseIndexSqlA_spends bs⟩
+
+/-- **C34 (total allocation, restore scanner).** `collectRecoverableBatches` (frame copies, `scanRecord`
+buffers, the truncated copy): at most 3 bytes per segment byte; `buildRestorePlan` adds `ParseIndex` of the
+index object (the output buffers of `BuildSegment`, which are not longer than the input, are not counted). -/
+theorem _root_.KafVerif.C34.pitr_total_alloc (crc : Bytes → Nat) (mk : Alloc) (seg idx : Bytes) (cutoff created : Int) :
+    (collectRecoverableA crc mk seg cutoff).res = collectRecoverable crc mk seg cutoff ∧
+    (buildRestorePlanA crc mk seg idx cutoff created).res = buildRestorePlan crc mk seg idx cutoff created ∧
+    (collectRecoverableA crc mk seg cutoff).cost ≤ allocCollectA * seg.length + allocCollectB ∧
+    (buildRestorePlanA crc mk seg idx cutoff created).cost ≤
+      allocCollectA * seg.length + allocIndexRootA * idx.length + (allocCollectB + allocIndexB) :=
+  ⟨collectRecoverableA_res mk crc seg cutoff, buildRestorePlanA_res crc seg idx cutoff created,
+   (collectRecoverableA_spends crc seg cutoff).1, buildRestorePlanA_spends crc seg idx cutoff created⟩
+
+/-- the bound is about the *guarded* decoders: before fix C34 a 109-byte segment announcing 2^31−1 records
+makes the same accounting reach 240 GB (with an allocator that never refuses) -/
+theorem _root_.KafVerif.C34.icebergOld_total_alloc_unbounded :
+    (decodeSegmentA mkOk cfgIcebergOld wRecordCount31).cost > allocDecodeA * wRecordCount31.length + allocDecodeB ∧
+    (decodeSegmentA mkOk cfgIceberg wRecordCount31).cost = 0 := by decide
+
 /-- pre-fix iceberg decoder: `headerCount = -1` → `makeslice: cap out of range` -/
 theorem _root_.KafVerif.C34.icebergOld_headerCount_panics :
     decodeSegment (goMakeLim AllocMax) cfgIcebergOld wHdrCountNeg = .panic := by decide
@@ -598,6 +638,11 @@ example : decodeSegment (goMakeLim AllocMax) cfgIceberg wKeyLen40 = .err := by d
 example : parseIndexIceberg (goMakeLim AllocMax) true wIndexNeg = .err ∧
     parseIndexSql (goMakeLim AllocMax) true wIndexHuge = .err ∧ parseIndexRoot (goMakeLim AllocMax) wIndexNeg = .err := by decide
 example : (collectRecoverable (fun _ => 0) (goMakeLim AllocMax) wHdrCountNeg 5).tag = "ok" := by decide
+-- the counter is not vacuous: the sql decoder allocates the record slice, a record buffer and more on a valid segment
+set_option maxRecDepth 16000 in
+example : (decodeSegmentA (goMakeLim AllocMax) cfgSql wCountWrap7).cost = 0 ∧
+    (decodeSegmentA (goMakeLim AllocMax) cfgSql wHdrCountNeg).cost = 118 ∧
+    (collectRecoverableA (fun _ => 0) (goMakeLim AllocMax) wHdrCountNeg 5).cost = 74 := by decide
 set_option maxRecDepth 8000 in
 example : (collectRecoverable (fun _ => 0) (goMakeLim AllocMax) wRecordLen40 5).tag = "err" := by decide
 
